@@ -104,7 +104,10 @@ func handleConnect(c *Client, e Event) {
 // nicknames with another bot, user, etc.
 func nickCollisionHandler(c *Client, e Event) {
 	// The nickname that was rejected: "<client> <nick> :<reason>".
-	rejected := c.GetNick()
+	rejected := c.Config.Nick
+	if !c.Config.disableTracking {
+		rejected = c.GetNick()
+	}
 	if len(e.Params) >= 2 && IsValidNick(e.Params[1]) {
 		rejected = e.Params[1]
 	}
